@@ -1,3 +1,265 @@
 package main
 
-func runCheck(root string, args []string) int { return 2 }
+import (
+	"encoding/json"
+	"fmt"
+	"os"
+	"path/filepath"
+	"sort"
+	"strconv"
+	"strings"
+	"time"
+)
+
+type KnownFinding struct {
+	Property   string `json:"property"`
+	Obligation string `json:"obligation"`
+	Status     string `json:"status"` // known | fixed
+	What       string `json:"what"`
+	Commit     string `json:"commit,omitempty"`
+	Witness    string `json:"witness,omitempty"`
+}
+
+func verifDir() string {
+	if d := os.Getenv("GVC_VERIF"); d != "" {
+		return d
+	}
+	return "/verif"
+}
+
+func loadKnown() []KnownFinding {
+	b, err := os.ReadFile(filepath.Join(verifDir(), "known_findings.json"))
+	if err != nil {
+		return nil
+	}
+	var out []KnownFinding
+	if err := json.Unmarshal(b, &out); err != nil {
+		fmt.Fprintln(os.Stderr, "known_findings.json:", err)
+	}
+	return out
+}
+
+// expectedObligations lists, per function, the obligation names the contract promises for a property.
+func expectedObligations(c *Contract, prop string) []string {
+	var out []string
+	for _, e := range c.Ensures {
+		if hasProp(e.Props, prop) {
+			out = append(out, c.Func+":post:"+e.Label)
+		}
+	}
+	return out
+}
+
+func contractHasProp(c *Contract, prop string) bool {
+	for _, p := range allProps(c) {
+		if p == prop {
+			return true
+		}
+	}
+	return false
+}
+
+func runCheck(root string, args []string) int {
+	if len(args) == 0 {
+		fmt.Fprintln(os.Stderr, "usage: gvc check <Cxx> [--tier quick|thorough]")
+		return 2
+	}
+	prop := args[0]
+	tier := "quick"
+	for i, a := range args {
+		if a == "--tier" && i+1 < len(args) {
+			tier = args[i+1]
+		}
+	}
+	if t := os.Getenv("VERIF_TIER"); t == "quick" || t == "thorough" {
+		tier = t
+	}
+	seed := 1
+	if s := os.Getenv("VERIF_SEED"); s != "" {
+		if n, err := strconv.Atoi(s); err == nil {
+			seed = n
+		}
+	}
+	t0 := time.Now()
+	vd := verifDir()
+	evPath := filepath.Join(vd, "evidence", prop+".json")
+	os.Remove(evPath)
+	violations := 0
+	var vioLines []string
+	report := func(obl, reason, detail, model, query string, nofail bool) {
+		violations++
+		dir := filepath.Join(vd, "replays", prop)
+		os.MkdirAll(dir, 0o755)
+		path := filepath.Join(dir, sanitize(obl)+".json")
+		jsonOut(path, map[string]interface{}{
+			"property": prop, "obligation": obl, "reason": reason, "detail": detail, "model": model,
+			"query_file": path + ".smt2", "replayed": false,
+			"note": "no-failing-input-found: the solver gave no model that could be replayed on the real code; the obligation is named above and the solver output is attached",
+		})
+		if query != "" {
+			writeFile(path+".smt2", query)
+		}
+		line := fmt.Sprintf("VIOLATION property=%s replay=%s obligation=%s (%s)", prop, path, obl, reason)
+		if nofail {
+			line += " no-failing-input-found"
+		}
+		vioLines = append(vioLines, line)
+	}
+
+	if prop == "C19" {
+		return runEffectCheck(root, tier, seed, evPath)
+	}
+
+	E, err := loadEngine(root)
+	if err != nil {
+		// the tree does not compile: nothing can be decided
+		fmt.Println("gvc: cannot load /repo:", err)
+		report("load", "the repository does not load/compile with -tags verif", err.Error(), "", "", true)
+		for _, l := range vioLines {
+			fmt.Println(l)
+		}
+		return 1
+	}
+	for _, e := range E.Specs.Errors {
+		fmt.Println("SPEC ERROR:", e)
+		report("spec", "contract file error", e, "", "", true)
+	}
+	cfg := runCfg{TimeoutS: 10, Seed: seed, Jobs: 16, Prop: prop}
+	if tier == "thorough" {
+		cfg.TimeoutS = 60
+	}
+	var names []string
+	for n, c := range E.Specs.Contracts {
+		if contractHasProp(c, prop) && !c.Trusted {
+			names = append(names, n)
+		}
+	}
+	sort.Strings(names)
+	var reps []FuncReport
+	var notTranslated []string
+	for _, n := range names {
+		rep := E.VerifyFunc(n)
+		reps = append(reps, rep)
+		if rep.Unsupp != "" {
+			notTranslated = append(notTranslated, n+": "+rep.Unsupp)
+			exp := expectedObligations(E.Specs.Contracts[n], prop)
+			if len(exp) == 0 {
+				exp = []string{n + ":sweep"}
+			}
+			for _, o := range exp {
+				report(o, "obligation could not be regenerated from the current source (undecided)", rep.Unsupp, "", "", true)
+			}
+		}
+	}
+	res := E.solveAll(cfg)
+	known := loadKnown()
+	isKnown := func(name string) *KnownFinding {
+		for i := range known {
+			if known[i].Property == prop && known[i].Obligation == name && known[i].Status == "known" {
+				return &known[i]
+			}
+		}
+		return nil
+	}
+	nObl, nDis := 0, 0
+	var per []map[string]interface{}
+	var knownHit []string
+	var samples []interface{}
+	var solverMs int64
+	ideal := 0
+	for _, r := range res {
+		solverMs += r.Ms
+		kf := isKnown(r.Name)
+		entry := map[string]interface{}{"name": r.Name, "reading": r.Reading, "kind": r.Kind, "path_instances": r.Instances, "status": r.Status, "solver": r.Solver, "ms": r.Ms}
+		if kf != nil {
+			entry["known_finding"] = kf.What
+			if r.Status != "discharged" {
+				knownHit = append(knownHit, r.Name)
+				fmt.Printf("KNOWN-FINDING: property=%s %s: %s\n", prop, r.Name, kf.What)
+			} else {
+				entry["note"] = "listed as known finding but discharged on this tree"
+			}
+			per = append(per, entry)
+			continue
+		}
+		nObl++
+		if r.Reading == "R" {
+			ideal++
+		}
+		if r.Status == "discharged" {
+			nDis++
+		} else {
+			detail := r.FailInfo + "\nclause: " + r.Src + "\npath: " + r.failPath + "\n" + r.solverOut
+			report(r.Name, "obligation not discharged: "+r.FailInfo, detail, r.failModel, r.failQuery, true)
+		}
+		per = append(per, entry)
+		if len(samples) < 3 && r.Src != "" {
+			samples = append(samples, map[string]string{"obligation": r.Name, "clause": r.Src, "reading": r.Reading})
+		}
+	}
+	if nObl == 0 && violations == 0 {
+		report("vacuity", "no obligation was generated for this property (vacuous check)", "", "", "", true)
+	}
+	var trusted []string
+	var assumptions []string
+	var ids []string
+	for id := range E.Used {
+		ids = append(ids, id)
+	}
+	sort.Strings(ids)
+	for _, id := range ids {
+		trusted = append(trusted, id)
+		assumptions = append(assumptions, id+": "+E.Used[id])
+	}
+	trusted = append(trusted, "gvc (SSA->VC generator written for this task)", "z3 5.1.0 / z3 4.8.12 / cvc5 1.0")
+	var fus []map[string]interface{}
+	for _, r := range reps {
+		fus = append(fus, map[string]interface{}{"func": r.Name, "paths": r.Paths, "obligation_instances": r.NObls, "translated": r.Unsupp == ""})
+	}
+	var trustedContracts []string
+	for n, c := range E.Specs.Contracts {
+		if c.Trusted {
+			trustedContracts = append(trustedContracts, n)
+		}
+	}
+	sort.Strings(trustedContracts)
+	ev := map[string]interface{}{
+		"property_id": prop, "tier": tier, "seed": seed, "level": "proof",
+		"coverage": map[string]interface{}{
+			"obligations": nObl, "discharged": nDis,
+			"checker_cmd":              fmt.Sprintf("bin/gvc check %s --tier %s", prop, tier),
+			"trusted_base":             trusted,
+			"samples":                  samples,
+			"functions_under_contract": fus,
+			"per_obligation":           per,
+			"ideal_obligations":        ideal,
+			"known_findings_hit":       knownHit,
+			"not_translated":           notTranslated,
+			"trusted_contracts":        trustedContracts,
+			"solver_ms_total":          solverMs,
+			"dropped_by_extraction":    "event emission, logging, telemetry, iterator Close, gas metering, error message text, context plumbing, protobuf wire format, bech32 text, big.Int bit widths (DESIGN.md 3.8)",
+			"integers":                 "mathematical (A-OVF); LegacyDec per obligation reading U/E/R",
+		},
+		"assumptions": assumptions,
+		"wall_s":      time.Since(t0).Seconds(),
+		"violations":  violations,
+	}
+	if err := jsonOut(evPath, ev); err != nil {
+		fmt.Fprintln(os.Stderr, "cannot write evidence:", err)
+	}
+	fmt.Printf("gvc check %s (%s): %d obligations, %d discharged, %d known findings, %d functions, %.1fs\n", prop, tier, nObl, nDis, len(knownHit), len(names), time.Since(t0).Seconds())
+	for _, l := range vioLines {
+		fmt.Println(l)
+	}
+	if violations > 0 {
+		return 1
+	}
+	return 0
+}
+
+func runEffectCheck(root, tier string, seed int, evPath string) int {
+	fmt.Println("effect checker not built yet")
+	return 2
+}
+
+var _ = strings.TrimSpace
